@@ -180,7 +180,10 @@ func (_this *markerObjectBuilder) BuildEndContainer(ctx *Context) {
 }
 
 func (_this *markerObjectBuilder) BuildArtificiallyEndContainer(ctx *Context) {
-	_this.child.BuildArtificiallyEndContainer(ctx)
+	// This builder is only on top of the stack while the marked object has not
+	// arrived yet, and its child is the builder below it on the stack: there is
+	// nothing of its own to close, so it just leaves the stack.
+	ctx.UnstackThisBuilder(_this)
 }
 
 func (_this *markerObjectBuilder) NotifyChildContainerFinished(ctx *Context, value reflect.Value) {
